@@ -4,6 +4,7 @@ import "os"
 
 // os/signal shim: Notify records the channel; the harness injects signals itself, delivered the way os/signal does:
 // a non-blocking send to every registered channel.
+//go:norace
 func Notify(c chan<- os.Signal, _ ...os.Signal) {
 	for _, x := range S.sigChans {
 		if x.(chan<- os.Signal) == c {
@@ -13,6 +14,7 @@ func Notify(c chan<- os.Signal, _ ...os.Signal) {
 	S.sigChans = append(S.sigChans, c)
 }
 
+//go:norace
 func Stop(c chan<- os.Signal) {
 	for i, x := range S.sigChans {
 		if x.(chan<- os.Signal) == c {
@@ -23,6 +25,7 @@ func Stop(c chan<- os.Signal) {
 }
 
 // Deliver sends sig to every registered channel without blocking. Returns the number of registered channels.
+//go:norace
 func Deliver(sig os.Signal) int {
 	n := 0
 	for _, x := range append([]any(nil), S.sigChans...) {
